@@ -12,7 +12,7 @@
 
 #define BG_UMAX 0xFFFFFFFFul /* B-SIZE: vertex count fits VertexIndex */
 
-#define BG_SCRATCH_(L) bg_scratch_row, bg_scratch_val_##L, bg_cur_adj
+#define BG_SCRATCH_(L) bg_scratch_row, bg_scratch_val_##L, bg_cur_adj, bg_ghost_frontier
 
 /* ---- class counters ---- */
 #define C_LEN_(c, F) F((c).len)
@@ -99,19 +99,45 @@
 #define D_SAME_uint(g) D_SAME_X(g, OLD, M_SAME_uint)
 #define D_SAME_real(g) D_SAME_X(g, OLD, M_SAME_real)
 
-#define D_PRE_X(g, WFL)                                                       \
+/* structural precondition of every member function; the label clause
+   D_WF_LABELS_<L> is a separate, tagged requires (it belongs to C03 & co.) */
+#define D_PRE(g)                                                              \
   (__CPROVER_is_fresh(g, sizeof(*(g))) && BG_ADJ_FRESH((g)->adjacencyList) && \
-   BG_MAP_FRESH((g)->edgeLabels) && D_WF_STRUCT(g) && WFL(g) &&               \
+   BG_MAP_FRESH((g)->edgeLabels) && D_WF_STRUCT(g) &&                         \
    bg_exc == BG_EXC_NONE && BG_SCRATCH_CLEAN)
-/* frame of a mutating member function */
+/* frame of a mutating member function: every ghost field, never the pointers */
 #define D_FRAME(g, L)                                                         \
   (g)->size, (g)->edgeNumber, (g)->adjacencyList.n, (g)->adjacencyList.r,     \
       (g)->edgeLabels.s, *(g)->adjacencyList.rowP, *(g)->adjacencyList.rowQ,  \
       *(g)->edgeLabels.valPQ, *(g)->edgeLabels.valQP, bg_exc, BG_SCRATCH_(L)
 #define D_FRAME_CONST(L) bg_exc, BG_SCRATCH_(L)
-#define D_PRE_VLabel(g) D_PRE_X(g, D_WF_LABELS_VLabel)
-#define D_PRE_NoLabel(g) D_PRE_X(g, D_WF_LABELS_NoLabel)
-#define D_PRE_uint(g) D_PRE_X(g, D_WF_LABELS_uint)
-#define D_PRE_real(g) D_PRE_X(g, D_WF_LABELS_real)
 
+/* the row object a vertex index designates: observed row or the scratch cell */
+#define D_ROW(g, i)                                                           \
+  ((bg_size)(i) == G_P   ? (g)->adjacencyList.rowP                            \
+   : (bg_size)(i) == G_Q ? (g)->adjacencyList.rowQ                            \
+                         : &bg_scratch_row.row)
+/* the scratch cell holds row i of g, obtained through non-const access */
+#define D_ROW_LOADED(g, i)                                                    \
+  (((bg_size)(i) == G_P || (bg_size)(i) == G_Q)                               \
+       ? !bg_scratch_row.valid                                                \
+       : (bg_scratch_row.valid && bg_scratch_row.from == &(g)->adjacencyList && \
+          bg_scratch_row.owner == &(g)->adjacencyList &&                      \
+          bg_scratch_row.row.idx == (bg_size)(i) &&                           \
+          bg_scratch_row.row.bound <= (g)->size &&                            \
+          BG_CNT_AX(bg_scratch_row.row.c, (bg_size)(i)) &&                    \
+          bg_scratch_row.row.c.len <= (g)->adjacencyList.r.restLen &&         \
+          bg_scratch_row.row.c.up <= (g)->adjacencyList.r.restUp))
+/* WF without the clean-cache clause */
+#define D_WF_LOOP(g) (D_WF_STRUCT(g) && bg_cur_adj == &(g)->adjacencyList)
+/* cursor j is a valid position of row r */
+#define IT_IN_ROW(it_, row_)                                                       \
+  (!(it_).poisoned && (it_).idx == (row_).idx && (it_).bound == (row_).bound &&           \
+   (it_).r.len <= (row_).c.len && (it_).r.nP <= (row_).c.nP && (it_).r.nQ <= (row_).c.nQ &&  \
+   (it_).r.up <= (row_).c.up && BG_CNT_AX((it_).r, (it_).idx) &&              \
+   BG_IT_CUR_OK(it_))
+#define IT_AT_BEGIN(it_, row_)                                                     \
+  (!(it_).poisoned && (it_).idx == (row_).idx && (it_).bound == (row_).bound &&           \
+   (it_).r.len == (row_).c.len && (it_).r.nP == (row_).c.nP && (it_).r.nQ == (row_).c.nQ &&  \
+   (it_).r.up == (row_).c.up && BG_IT_CUR_OK(it_))
 #endif
